@@ -196,6 +196,13 @@ def try_deal : String := "template<typenameT,typenameS>template<boolCONCURRENT,b
 def deal_n : String := "template<typenameT,typenameS>template<boolUSE_FUTEX_WAIT,boolUSE_FUTEX_WAKE,boolPUSH_OR_POP,typenameC>inlinevoidConcurrentBoundedQueue<T,S>::deal_n_continuously(C&&callback,size_tindex,size_tnum)noexcept{autoexpected_version=PUSH_OR_POP?push_version_for_index(index):pop_version_for_index(index);autoslot_index=index&_slot_mask;for(size_ti=0;i<num;++i){_slots.futex(slot_index+i).templatewait_until_reach_expected_version<USE_FUTEX_WAIT>(expected_version,nullptr,::std::memory_order_relaxed);}::std::atomic_thread_fence(::std::memory_order_acquire);for(size_ti=0;i<num;++i){_slots.futex(slot_index+i).mark_tsan_acquire();}callback(_slots.value_iterator(slot_index),_slots.value_iterator(slot_index+num));::std::atomic_thread_fence(::std::memory_order_release);for(size_ti=0;i<num;++i){_slots.futex(slot_index+i).mark_tsan_release();}for(size_ti=0;i<num;++i){_slots.futex(slot_index+i).set_version(expected_version+1,::std::memory_order_relaxed);}if(USE_FUTEX_WAKE){::std::atomic_thread_fence(::std::memory_order_seq_cst);for(size_ti=0;i<num;++i){_slots.futex(slot_index+i).wakeup_waiters(expected_version+1);}}}"
 def deal_n_comp : String := "template<typenameT,typenameS>template<boolPUSH_OR_POP,typenameC,typenameRC>inlinevoidConcurrentBoundedQueue<T,S>::deal_n_continuously(C&&callback,RC&&reverse_callback,size_tindex,size_tnum)noexcept{autoexpected_version=PUSH_OR_POP?push_version_for_index(index):pop_version_for_index(index);autoslot_index=index&_slot_mask;for(size_ti=0;i<num;++i){while(expected_version!=_slots.futex(slot_index+i).version(::std::memory_order_relaxed)){autoneed_index=PUSH_OR_POP?_next_pop_index.load(::std::memory_order_relaxed)+capacity():_next_push_index.load(::std::memory_order_relaxed);if(need_index<=index+num){if(PUSH_OR_POP){try_pop_n<true,false>(::std::forward<RC>(reverse_callback),1);}else{try_push_n<true,false>(::std::forward<RC>(reverse_callback),1);}}else{S::yield();}}}::std::atomic_thread_fence(::std::memory_order_acquire);for(size_ti=0;i<num;++i){_slots.futex(slot_index+i).mark_tsan_acquire();}callback(_slots.value_iterator(slot_index),_slots.value_iterator(slot_index+num));::std::atomic_thread_fence(::std::memory_order_release);for(size_ti=0;i<num;++i){_slots.futex(slot_index+i).mark_tsan_release();}for(size_ti=0;i<num;++i){_slots.futex(slot_index+i).set_version(expected_version+1,::std::memory_order_relaxed);}}"
 def try_deal_n : String := "template<typenameT,typenameS>template<boolCONCURRENT,boolUSE_FUTEX_WAKE,boolPUSH_OR_POP,typenameC>inlinesize_tConcurrentBoundedQueue<T,S>::try_deal_n_continuously(C&&callback,size_tindex,size_tnum)noexcept{autoexpected_version=PUSH_OR_POP?push_version_for_index(index):pop_version_for_index(index);autoslot_index=index&_slot_mask;for(size_ti=0;i<num;++i){auto&futex=_slots.futex(slot_index+i);if(expected_version!=futex.version(::std::memory_order_relaxed)){num=i;break;}}if(num==0){return0;}auto&next_index=PUSH_OR_POP?_next_push_index:_next_pop_index;if(CONCURRENT){if(!next_index.compare_exchange_strong(index,index+num,::std::memory_order_relaxed)){return0;}}else{next_index.store(index+num,::std::memory_order_relaxed);}::std::atomic_thread_fence(::std::memory_order_acquire);for(size_ti=0;i<num;++i){_slots.futex(slot_index+i).mark_tsan_acquire();}callback(_slots.value_iterator(slot_index),_slots.value_iterator(slot_index+num));::std::atomic_thread_fence(::std::memory_order_release);for(size_ti=0;i<num;++i){_slots.futex(slot_index+i).mark_tsan_release();}for(size_ti=0;i<num;++i){_slots.futex(slot_index+i).set_version(expected_version+1,::std::memory_order_relaxed);}if(USE_FUTEX_WAKE){::std::atomic_thread_fence(::std::memory_order_seq_cst);for(size_ti=0;i<num;++i){_slots.futex(slot_index+i).wakeup_waiters(expected_version+1);}}returnnum;}"
+def sched_futex_wait : String := "inlineintSchedInterface::futex_wait(uint32_t*futex,uint32_tval,conststruct::timespec*timeout)noexcept{return::syscall(202,futex,(0|128),val,timeout);}"
+def sched_futex_wake_one : String := "inlineintSchedInterface::futex_wake_one(uint32_t*futex)noexcept{return::syscall(202,futex,(1|128),1);}"
+def sched_futex_wake_all : String := "inlineintSchedInterface::futex_wake_all(uint32_t*futex)noexcept{return::syscall(202,futex,(1|128),(2147483647));}"
+def sched_usleep : String := "inlinevoidSchedInterface::usleep(useconds_tus)noexcept{::usleep(us);}"
+def sched_yield : String := "inlinevoidSchedInterface::yield()noexcept{::sched_yield();}"
+def futex_wait : String := "{returnS::futex_wait(&_value,val,timeout);}"
+def futex_wake_all : String := "{returnS::futex_wake_all(&_value);}"
 def push : String := "{autoindex=CONCURRENT?_next_push_index.fetch_add(1,::std::memory_order_relaxed):_next_push_index.load(::std::memory_order_relaxed);if(!CONCURRENT){_next_push_index.store(index+1,::std::memory_order_relaxed);}deal<USE_FUTEX_WAIT,USE_FUTEX_WAKE,true>(::std::forward<C>(callback),index);}"
 def pop : String := "{autoindex=CONCURRENT?_next_pop_index.fetch_add(1,::std::memory_order_relaxed):_next_pop_index.load(::std::memory_order_relaxed);if(!CONCURRENT){_next_pop_index.store(index+1,::std::memory_order_relaxed);}deal<USE_FUTEX_WAIT,USE_FUTEX_WAKE,false>(::std::forward<C>(callback),index);}"
 end Pinned
